@@ -148,6 +148,14 @@ func (en *evalEnv) lookupIdent(name string) (ev, bool) {
 		pb := b
 		for hops := 0; b != nil && hops < 64; hops++ {
 			for i := idx - 1; i >= 0; i-- {
+				if dr, ok := b.Instrs[i].(*ssa.DebugRef); ok && dr.IsAddr {
+					// an address-taken variable: its current contents are read from its cell
+					if id, ok := dr.Expr.(*ast.Ident); ok && id.Name == name && en.hasValue(dr.X) {
+						if pt, ok := dr.X.Type().(*types.Pointer); ok {
+							return ev{e.load(en.fr, en.st, e.val(en.fr, dr.X), pt.Elem()), pt.Elem()}, true
+						}
+					}
+				}
 				if dr, ok := b.Instrs[i].(*ssa.DebugRef); ok && !dr.IsAddr {
 					if id, ok := dr.Expr.(*ast.Ident); ok && id.Name == name {
 						if !en.hasValue(dr.X) {
